@@ -111,6 +111,16 @@ def rule_refcount_outputs(repo: Repo, rep: Report) -> None:
                           "observer.on_next is built with add_ref(subject, r) / GroupedObservable(key, subject, r), "
                           "and r is (held by) the returned disposable", floor=12)
     m = model_of(repo)
+    # add_ref itself: the reference (`r.disposable` is a property that *increments* the count) is taken by each
+    # subscription, inside the subscribe function -- a window nobody subscribes to must not hold one
+    ar = repo.fn("reactivex/internal/utils.py", "add_ref")
+    rp = ar.params[1]
+    takes = [(g, n) for g in ar.walk() if g.is_func or g is ar for n in g.direct_nodes()
+             if isinstance(n, ast.Attribute) and n.attr == "disposable" and isinstance(n.value, ast.Name) and n.value.id == rp]
+    ok = bool(takes) and all(m.role.get(g) == "subscribe" for g, _ in takes)
+    rep.ob("G1-addref", ar, "add_ref: r.disposable is taken inside the subscribe function (one reference per subscription)", ok,
+           "add_ref takes its reference on the RefCountDisposable when the window is *created*, not when it is subscribed: a window that is "
+           "handed downstream but never subscribed keeps the source (and the boundary / closing subscriptions) alive for ever")
     for f in sorted(m.l2_functions(), key=lambda f: f.ref):
         rvars = {}
         for g in f.walk():
